@@ -21,7 +21,9 @@ R == Recs[l]
 Conforms == R.kind = "gate" => R.diff = "" /\ R.cap = 100
 \* what-level, whatever the mechanism: a behaviour that runs to its end leaves the loop body with exactly the nodes up
 \* to the one it stops at (all of them if it never stops), and the iterator returns
-Outcome == (R.kind = "gate" /\ R.finished) =>
+\* (finished = the replay itself reached the end of the behaviour; "plain" = the same question asked of an ungated run, so
+\* that the verdict does not rest on the gate when the mechanism has moved)
+Outcome == ((R.kind = "gate" /\ R.finished) \/ R.kind = "plain") =>
              /\ R.realReturned
              /\ R.realGot = (IF R.stopAt \in 1..R.n THEN R.stopAt ELSE R.n)
 \* the model's send is not enabled on a full channel: the real producer, let through its gate once more than the channel
